@@ -43,6 +43,7 @@ def check(ctx, tier):
     viewrules.slice_normalisation(ctx, tk, "C03.h")
     viewrules.empty_row_rule(ctx, tk, "C03.i")
     viewrules.col_slice_model(ctx, tk, "C03.i")
+    viewrules.int_column_model(ctx, tk, "C03.i")
     viewrules.column_units(ctx, tk, "C03.h")
     from .. import hazards as _hz, scopes as _sc
     _hz.generic(ctx, tk, "C03.z", _sc.scope(tk, "C03", depth=1))
